@@ -129,7 +129,9 @@ def post(events, tier, seed, ctx):
         r = CaseResult(case_id=f'energy{e["tid"]}')
         r.observations = len(e['e'])
         r.tags = ['energy_judged']
-        if v != 'ok':
+        if v.startswith('skipped'):
+            r.skipped = v
+        elif v != 'ok':
             r.mismatches.append({'what': 'stored energy of the simulated free response', 'got': repr(e['e'][:20]), 'want': 'non-increasing', 'signature': f'energy:{v}', 'detail': f'scheme={e["scheme"]}'})
         yield (json.dumps({'energy_event': e}), r)
     yield {'trace_validation': dict(info, verdicts=counts, module='Trace_C11.tla')}
